@@ -74,6 +74,8 @@ type access struct {
 	Locks []int  `json:"locks"`
 	Pos   string `json:"pos"`
 	Via   string `json:"via"`
+	// the critical section (Lock call number) of every lock held at the access
+	Secs map[int]int `json:"-"`
 }
 
 type stubImporter struct{ pkgs map[string]*types.Package }
@@ -156,6 +158,9 @@ type gen struct {
 	nest        int
 	published   bool
 	republished []string
+	// critical sections: a counter advanced at every Lock call, and the section each lock class is currently in
+	sectionSeq int
+	section    map[int]int
 }
 
 func namedOf(t types.Type) string {
@@ -206,7 +211,11 @@ func (g *gen) record(sel *ast.SelectorExpr, write bool, held lockset) {
 		return
 	}
 	p := g.fset.Position(sel.Pos())
-	g.out = append(g.out, access{Res: res, Write: write, Locks: protecting(res, held.list()), Pos: fmt.Sprintf("%s:%d", filepath.Base(p.Filename), p.Line), Via: g.via})
+	secs := map[int]int{}
+	for _, l := range held.list() {
+		secs[l] = g.section[l]
+	}
+	g.out = append(g.out, access{Res: res, Write: write, Locks: protecting(res, held.list()), Pos: fmt.Sprintf("%s:%d", filepath.Base(p.Filename), p.Line), Via: g.via, Secs: secs})
 }
 
 // scan an expression: accesses (write if under an assignment target), calls into the package
@@ -390,6 +399,11 @@ func (g *gen) stmt(st ast.Stmt, held lockset, depth int) lockset {
 						}
 					}
 					held.acquire(cl)
+					g.sectionSeq++
+					if g.section == nil {
+						g.section = map[int]int{}
+					}
+					g.section[cl] = g.sectionSeq
 				} else {
 					delete(held, cl)
 				}
@@ -577,13 +591,51 @@ func main() {
 		Accesses []access `json:"accesses"`
 	}
 	var table []entry
+	type splitRec struct {
+		Fn       string `json:"function"`
+		Res      int    `json:"resource"`
+		Sections int    `json:"sections"`
+	}
+	var splits []splitRec
 	for _, d := range docs {
 		g.out, g.stack, g.via = nil, map[*types.Func]bool{}, d.name
 		g.nest, g.published = 0, false
 		if obj, ok := info.Defs[d.decl.Name].(*types.Func); ok {
 			g.stack[obj] = true
 		}
+		g.sectionSeq, g.section = 0, map[int]int{}
 		g.block(d.decl.Body.List, lockset{}, 6)
+		// a worksheet-level resource (1, 2, 3, 7) written by the function in a critical section of the worksheet lock
+		// after having been read or written by it in an EARLIER critical section of that lock: between the two
+		// sections another goroutine may change the resource, so what the later section writes rests on stale state
+		// (check-then-act across sections).  Recorded per function as (resource, number of sections).
+		for _, res := range []int{1, 2, 3, 7} {
+			first, split := 0, false
+			secs := map[int]bool{}
+			for _, a := range g.out {
+				if a.Res != res {
+					continue
+				}
+				sec, ok := a.Secs[2]
+				if !ok {
+					continue
+				}
+				secs[sec] = true
+				if first == 0 || sec < first {
+					first = sec
+				}
+			}
+			for _, a := range g.out {
+				if a.Res == res && a.Write {
+					if sec, ok := a.Secs[2]; ok && sec > first {
+						split = true
+					}
+				}
+			}
+			if split {
+				splits = append(splits, splitRec{d.name, res, len(secs)})
+			}
+		}
 		// de-duplicate (resource, write, locks)
 		seen := map[string]bool{}
 		var acc []access
@@ -649,12 +701,29 @@ func main() {
 	for _, k := range pairs {
 		fmt.Fprintf(&sb, "(* %s then %s: %s *)\n", lockName[k[0]], lockName[k[1]], g.order[k])
 	}
+	sb.WriteString("\n(* (function index, resource) written in a later critical section of the worksheet lock than the one it was first\n   accessed in by the same call *)\nDefinition split_sections : list (Z * Z) := [")
+	for i, sp := range splits {
+		if i > 0 {
+			sb.WriteString("; ")
+		}
+		idx := 0
+		for k, e := range table {
+			if e.Name == sp.Fn {
+				idx = k
+			}
+		}
+		fmt.Fprintf(&sb, "(%d, %d)", idx, sp.Res)
+	}
+	sb.WriteString("].\n")
+	for _, sp := range splits {
+		fmt.Fprintf(&sb, "(* %s: %s in %d critical sections *)\n", sp.Fn, resourceName[sp.Res], sp.Sections)
+	}
 	if err := os.WriteFile(outV, []byte(sb.String()), 0o644); err != nil {
 		fmt.Fprintln(os.Stderr, "lockgen:", err)
 		os.Exit(1)
 	}
 	if len(os.Args) > 3 {
-		b, _ := json.MarshalIndent(map[string]interface{}{"functions": table, "locks": lockName, "resources": resourceName, "lookups_of_published_sheet": g.republished}, "", " ")
+		b, _ := json.MarshalIndent(map[string]interface{}{"functions": table, "locks": lockName, "resources": resourceName, "lookups_of_published_sheet": g.republished, "split_sections": splits}, "", " ")
 		os.WriteFile(os.Args[3], b, 0o644)
 	}
 	fmt.Printf("lockgen: %d documented functions\n", len(table))
